@@ -187,6 +187,8 @@ class SshHostKeyDSSBase(SshHostKeyBase):
     def _parse_host_key(cls, parser):
         for param_name in ['p', 'q', 'g', 'y']:
             parser.parse_ssh_mpint(param_name)
+            if parser[param_name] <= 0:
+                raise InvalidValue(parser[param_name], cls, param_name)
 
         public_key = PublicKey.from_params(PublicKeyParamsDsa(
             prime=parser['p'],
@@ -246,6 +248,9 @@ class SshHostKeyRSABase(SshHostKeyBase):
     def _parse_host_key(cls, parser):
         parser.parse_ssh_mpint('e')
         parser.parse_ssh_mpint('n')
+        for param_name in ['e', 'n']:
+            if parser[param_name] <= 0:
+                raise InvalidValue(parser[param_name], cls, param_name)
 
         public_key = PublicKey.from_params(PublicKeyParamsRsa(
             modulus=parser['n'],
